@@ -232,9 +232,12 @@ func runC05(c *Ctx) {
 			t := eb.Of(e.Results[0], e.Instr)
 			_, ok := ana.MatchAny(t,
 				"call<(*strings.Builder).String>(obj(alloc<strings.Builder>, call<(*strings.Builder).Grow>(self, len(p1)), maybe(call<(*strings.Builder).WriteByte>(self, load(iaddr(faddr<#0>(p0), load(iaddr(p1, bin<+>(ind<+1>(-1), 1)))))))))",
-				"call<(*strings.Builder).String>(obj(alloc<strings.Builder>, maybe(call<(*strings.Builder).WriteByte>(self, load(iaddr(faddr<#0>(p0), load(iaddr(p1, bin<+>(ind<+1>(-1), 1)))))))))")
+				"call<(*strings.Builder).String>(obj(alloc<strings.Builder>, maybe(call<(*strings.Builder).WriteByte>(self, load(iaddr(faddr<#0>(p0), load(iaddr(p1, bin<+>(ind<+1>(-1), 1)))))))))",
+				// the same characters stored into a byte slice of len(src) that is converted to the string
+				"conv<string>(obj(makeslice<[]byte>(len(p1), len(p1)), maybe(store(iaddr(self, ind<+1>(0)), load(iaddr(faddr<#0>(p0), load(iaddr(p1, ind<+1>(0)))))))))",
+				"conv<string>(obj(makeslice<[]byte>(len(p1), len(p1)), maybe(store(iaddr(self, bin<+>(ind<+1>(-1), 1)), load(iaddr(faddr<#0>(p0), load(iaddr(p1, bin<+>(ind<+1>(-1), 1)))))))))")
 			whole := false
-			for _, l := range rangeLoops(eb) {
+			for _, l := range rangeLoopsAll(eb) {
 				if l.Coll.IsParam(1) {
 					whole = true
 				}
